@@ -74,6 +74,7 @@ type Sys struct {
 	ghost  map[string][]told // client -> prefixes told, in order first told
 	hist   []Op
 	dead   bool
+	broken bool
 	nclients int
 	rich   bool
 }
@@ -174,7 +175,7 @@ func (s *Sys) resolve(client, sym string) (string, bool) {
 			return s.ghost[other][0].prefix, true
 		}
 		return "", false
-	case "free1", "free2", "free1-long":
+	case "free1", "free2", "free1-long", "free1-short":
 		fb := s.freeBlocks()
 		k := 0
 		if sym == "free2" {
@@ -187,6 +188,10 @@ func (s *Sys) resolve(client, sym string) (string, bool) {
 		p := s.blockPrefix(fb[len(fb)-1-k])
 		if sym == "free1-long" {
 			p = strings.Split(p, "/")[0] + fmt.Sprintf("/%d", s.pool.Page+8)
+		}
+		if sym == "free1-short" {
+			// address of a free block, but a length shorter than the pool's own prefix
+			p = strings.Split(p, "/")[0] + fmt.Sprintf("/%d", s.pool.Page-16)
 		}
 		return p, true
 	case "outside":
@@ -207,12 +212,12 @@ func (s *Sys) resolve(client, sym string) (string, bool) {
 }
 
 func (s *Sys) Ops() []Op {
-	if s.dead {
+	if s.dead || s.broken {
 		return nil
 	}
 	var ops []Op
 	clients := []string{"A", "B", "C"}[:s.nclients]
-	single := []string{"len0", "len-page", "len-short", "len-long", "own1", "own2", "other1", "free1", "free1-long", "outside"}
+	single := []string{"len0", "len-page", "len-short", "len-long", "own1", "own2", "other1", "free1", "free1-long", "free1-short", "outside"}
 	for _, c := range clients {
 		ops = append(ops, Op{Client: c, Msg: 1, IAPDs: [][]string{{}}}) // one IA_PD, no IAPrefix
 		for _, h := range single {
@@ -278,6 +283,9 @@ func (s *Sys) Key() string {
 	if s.dead {
 		return "dead-after-panic"
 	}
+	if s.broken {
+		return "property-violated (terminal)"
+	}
 	d := s.hd.VerifDump()
 	var g []string
 	for c, ts := range s.ghost {
@@ -326,6 +334,9 @@ func (s *Sys) violate(prop, sig, what string) {
 	if prop != s.id {
 		return
 	}
+	// a state in which the property is already violated is not explored further: broken
+	// states can have unboundedly many successors (e.g. a bitmap that grows past the pool)
+	s.broken = true
 	s.r.Violate(prop+"/"+sig, fmt.Sprintf("pool %s->/%d: %s (history of %d messages)", s.pool.CIDR, s.pool.Page, what, len(s.hist)), Case{s.pool, append([]Op{}, s.hist...)})
 }
 
@@ -384,6 +395,12 @@ func (s *Sys) Apply(op Op, live bool) (obs string) {
 		return "dead"
 	}
 	s.hist = append(s.hist, op)
+	if s.hd.VerifLocked() {
+		// an earlier message left the handler mutex held: every further message would block
+		// forever, so the instance is dead (reported when the lock was first seen held)
+		s.dead = true
+		return "dead: mutex held"
+	}
 	wire := buildReq(op)
 	req, err := dhcpv6.FromBytes(wire)
 	if err != nil {
@@ -417,6 +434,16 @@ func (s *Sys) Apply(op Op, live bool) (obs string) {
 		return
 	}()
 	tAfter := time.Now()
+	if pan == "" && s.hd.VerifLocked() {
+		// every later message (and every state dump) would block forever
+		s.dead = true
+		if live {
+			s.violate("C08", "lock-left-held", "handler returned with its mutex held")
+			s.violate("C09", "lock-left-held", "handler returned with its mutex held: no later renewal can be answered")
+			s.r.Eval("lock-left-held")
+		}
+		return "LOCK-LEFT-HELD"
+	}
 	class := fmt.Sprintf("msg=%d/relay=%d/iapds=%d", op.Msg, op.Relay, len(op.IAPDs))
 	defer func() {
 		if live {
@@ -590,6 +617,7 @@ func (s *Sys) Apply(op Op, live bool) (obs string) {
 		}
 		if s.hd.VerifLocked() {
 			s.violate("C08", "lock-left-held", "handler returned with its mutex held")
+			s.violate("C09", "lock-left-held", "handler returned with its mutex held: no later renewal can be answered")
 		}
 		if len(pds) > 0 && len(pds[0].prefixes) > 0 {
 			class += "/delegated"
